@@ -329,12 +329,72 @@ def run(ctx, out):
                 "-w 0 = one worker per CPU), runs confined to ONE usable CPU, runs in which one call fails (ENOENT/EACCES/EIO/ENOTDIR at the "
                 "n-th open / stat / listing / mkdir / symlink / readlink): whole-sandbox snapshot vs an "
                 "independent Python statement of cp's mapping rule and a frame check; the destination matrix (DestMatrix.v); operands "
-                "that are links (copied as links, never descended into, whatever they point at from their new place); non-trivial = >=3 entries; distinct by case")
+                "that are links (copied as links, never descended into, whatever they point at from their new place); --gitignore selections (git's own verdicts; sources holding a directory of their own name) mirrored entry by entry; non-trivial = >=3 entries; distinct by case")
     run_walker_r0(ctx, out)
     run_copies(ctx, out)
     import destmatrix
     destmatrix.run(ctx, out, "C02", opts=["none", "backup"])
     run_link_operands(ctx, out)
+    run_selected(ctx, out)
+
+
+def run_selected(ctx, out):
+    """`the selected source tree` under --gitignore: the destination holds exactly the entries git itself does not ignore
+    (directories pruned with what is below them), each with its kind, content and link text — whatever the operand's
+    spelling, also when a directory inside the source carries the source's own name (patterns anchored at the root
+    apply one level only)."""
+    from props import c17
+    rng = ctx.rng
+    quick = ctx.tier == "quick"
+    d0 = ctx.work.fresh("c02sel")
+    for k in range(16 if quick else 300):
+        d = os.path.join(d0, "s%d" % k)
+        os.makedirs(d)
+        name = rng.choice(["proj", "src", "a b", "pkg.d"])
+        tree = c17.gen_tree(rng, rng.choice([1, 2]))
+        pats = c17.gen_patterns(rng, tree)
+        if k % 2 == 0:
+            inner = c17.gen_tree(rng, 1)
+            inner[1][b"dist"] = ("dir", {b"wheel.py": ("file", 9, {}), b"sub": ("dir", {b"x.py": ("file", 3, {})}, {})}, {})
+            inner[1][b"c-link"] = ("link", b"dist/wheel.py")
+            tree[1][os.fsencode(name)] = inner
+            tree[1][b"dist"] = ("dir", {b"bundle.tar": ("file", 30, {})}, {})
+            pats += ["/dist"] + ["/" + os.fsdecode(n) for n in list(inner[1])[:2]]
+        src = os.path.join(d, name)
+        trees.materialise(tree, os.fsencode(src))
+        open(os.path.join(src, ".gitignore"), "w").write("\n".join(pats) + "\n")
+        ref = os.path.join(d, "ref")
+        shutil.copytree(src, ref, symlinks=True)
+        subprocess.run(["git", "init", "-q", ref], capture_output=True)
+        _, entries = treecase.scan(os.fsencode(src), False)
+        rels = [r for r, _, _ in entries if r]
+        ign = c17.git_ignored(ref, [b"/".join(r) for r in rels])
+        keep = {b"/".join(r) for r in rels if not any(b"/".join(r[:i]) in ign for i in range(1, len(r) + 1))}
+        os.mkdir(os.path.join(d, "sub"))
+        spelling = rng.choice(["rel", "rel", "dotrel", "slash", "abs", "dotdot"])
+        sarg = {"abs": src, "rel": name, "dotrel": "./" + name, "dotdot": "sub/../" + name, "slash": name + "/"}[spelling]
+        driver = rng.choice(["parfile", "parblock"])
+        argv = [ctx.bins["xcp"], "-r", "--gitignore", "--driver", driver, "-w", str(rng.choice([1, 2, 4])), sarg, "out"]
+        r = xcp.run_plain(argv, d)
+        ssnap = xcp.snapshot(os.fsencode(src))
+        dsnap = xcp.snapshot(os.fsencode(os.path.join(d, "out"))) if os.path.isdir(os.path.join(d, "out")) else {}
+        rep = dict(kind="selected-by-gitignore", patterns=pats, tree=trees.describe(tree, 24), argv=argv[1:], exit=r.exit, stderr=r.stderr[-200:])
+        out.case(("selected", k, tuple(pats), spelling, driver), nontrivial=len(keep) < len(rels))
+        out.count("gitignore_selected")
+        if r.exit != 0:
+            out.corr("R1-valid-invocation-failed: the model/mapping rule expects success", rep, "exit 0", r.exit)
+        else:
+            got = {p for p in dsnap if p}
+            if got != keep:
+                out.violation("exit 0 but the destination is not the selected source tree: missing %r, not selected yet present %r"
+                              % (sorted(keep - got)[:4], sorted(got - keep)[:4]), rep)
+            else:
+                for p in sorted(keep):
+                    a, b = ssnap[p], dsnap[p]
+                    if any(a.get(f) != b.get(f) for f in ("kind", "sha", "link", "size")):
+                        out.violation("exit 0 but the selected entry %r differs (%s)" % (p, [f for f in ("kind", "sha", "link", "size") if a.get(f) != b.get(f)]), rep)
+                        break
+        shutil.rmtree(d, ignore_errors=True)
 
 
 def run_link_operands(ctx, out):
